@@ -182,6 +182,31 @@ func TestVerifABEObjectReuse(t *testing.T) {
 			lib.Violation("C20:key-tied-to-attributes-object:SystemSecretKey.KeyGen", rmon, lib.D("attrs", a.String()))
 		}
 	}
+	// a COPY of a key value (AttributeKey is passed and stored by value) is
+	// reloaded with another key's encoding: the copy is then that other key,
+	// and the key it was copied from is what it was
+	for i := range keys {
+		j := (i + 1) % len(keys)
+		slot := keys[i]
+		if err := slot.UnmarshalBinary(lib.Clone(encs[j])); err != nil {
+			lib.Violation("C20:decode-error:AttributeKey.UnmarshalBinary:into-a-copy-of-another-key", rmon, lib.D("attrs", sets[j].String(), "err", err))
+			continue
+		}
+		lib.Count("reuse:key-copy-reloaded")
+		slotNow, _ := slot.MarshalBinary()
+		origNow, _ := keys[i].MarshalBinary()
+		if !lib.Eq(slotNow, encs[j]) {
+			lib.Violation("C20:decode-into-used-differs:AttributeKey.UnmarshalBinary", rmon, lib.D("loaded", sets[j].String(), "previous_content", sets[i].String()))
+		}
+		if !lib.Eq(origNow, encs[i]) {
+			lib.Violation("C20:key-changed-by-reloading-a-copy:AttributeKey.UnmarshalBinary", rmon, lib.D("key", sets[i].String(), "copy_reloaded_with", sets[j].String()))
+			// restore, so that the passes below judge the keys themselves
+			var fresh tkn20.AttributeKey
+			if fresh.UnmarshalBinary(lib.Clone(encs[i])) == nil {
+				keys[i] = fresh
+			}
+		}
+	}
 	// every key against every ciphertext, three passes over the same key objects
 	for pass := 0; pass < 3; pass++ {
 		for ki := range keys {
